@@ -1,5 +1,6 @@
 """C20 finding: Scrollable.render returns early when the wrapped canvas fits the view, before
-_adjust_trim_top and before the forwarding decision.  Exit 1 while the defect is present.
+_adjust_trim_top and before the forwarding decision.  Exit 1 while the defect is present
+(repaired in /repo by fix: 886d649: exits 0 now; kept as a regression script).
 
  (a) get_scrollpos() keeps a stale / never-clamped position although rows 0.. are shown;
  (b) mouse_event adds that stale offset to the row it forwards;
